@@ -3,9 +3,9 @@
 records the independent confirmation (tools/confirm_seed.sh) and what the change needs to manifest."""
 import json, os, shutil, sys
 NEEDS = json.load(open(os.path.join(os.path.dirname(__file__), 'seed_needs.json')))
-LET = {1: 'E', 2: 'F', 3: 'G', 4: 'H', 5: 'I', 6: 'J', 7: 'K'}
+LET = {1: 'E', 2: 'F', 3: 'G', 4: 'H', 5: 'I', 6: 'J', 7: 'K', 8: 'L', 9: 'M'}
 for prop in sys.argv[1:]:
-    for k in ((6, 7) if os.environ.get('ROUND5') else (4, 5) if os.environ.get('ROUND4') else (3,) if os.environ.get('ROUND3') else (1, 2)):
+    for k in ((8, 9) if os.environ.get('ROUND6') else (6, 7) if os.environ.get('ROUND5') else (4, 5) if os.environ.get('ROUND4') else (3,) if os.environ.get('ROUND3') else (1, 2)):
         src = f'/tmp/wt/{prop}/SEED/seed{k}'
         name = f'{prop}-{LET[k]}'
         dst = f'/verif/seeded/{name}'
